@@ -269,3 +269,109 @@ func caseC09(t TB, prog *Program) {
 func init() {
 	replayers["C09"] = func(t *testing.T, prog *Program) { guardT(t, prog, func() { caseC09(t, prog) }) }
 }
+
+// TestC09StorageGone: the storage stops working altogether (every file-system mutation fails
+// from some point on) while an async collection has tens of writes pending. Calls fail - that is
+// their right - but every one of them returns, and so does Close.
+func TestC09StorageGone(t *testing.T) {
+	if !instrumented() {
+		t.Skip("needs the instrumented build")
+	}
+	rapid.Check(t, func(rt *rapid.T) {
+		g := NewG(rt, &Profile{Property: "C09", TinyBias: 60})
+		// (threshold and timeout out of reach: the background flusher must not meet the dead storage,
+		// its reaction to a failed flush is outside this property)
+		cfg := Config{Ext: ".json", Cache: g.pct("cache") < 50, Compress: g.pct("compress") < 20,
+			Async: &AsyncCfg{Threshold: 1000000, TimeoutMs: 3600000 * 24}, Cons: map[string]Cons{"I64": {Index: true}}}
+		if g.pct("sync") < 25 {
+			cfg.Async = nil
+		}
+		calls := []string{}
+		for i, n := 0, 2+g.uni(5, "ncalls"); i < n; i++ {
+			calls = append(calls, pickU(g, []string{"flushAll", "flushAllCommit", "commit", "insert", "many", "delete", "deleteAll", "repair", "createAgain", "count", "all", "control", "searchDelete"}, "call"))
+		}
+		prog := &Program{Property: "C09", Cfg: cfg, Aux: map[string]interface{}{
+			"storageGone": calls, "pending": pickU(g, []int{1, 5, 16, 17, 18, 40, 100}, "pending"), "after": g.uni(4, "after")}}
+		guard(rt, prog, func() { caseC09StorageGone(rt, prog) })
+	})
+}
+
+func caseC09StorageGone(t TB, prog *Program) {
+	st := statsFor("C09")
+	var calls []string
+	reJSON(prog.Aux["storageGone"], &calls)
+	pending, after := auxInt(prog.Aux, "pending"), auxInt(prog.Aux, "after")
+	vshim.SetClock(vshim.ClockReal, 1)
+	e := NewEnv(t, prog, RunOpts{NoObs: true, PreOpen: func(root string) { vshim.Register(root, vshim.ModePass) }})
+	defer func() { vshim.Disarm(e.root); vshim.Unregister(e.root); e.Teardown() }()
+	db := e.db
+	var objs []sod.Object
+	for i := 0; i < pending; i++ {
+		objs = append(objs, &Doc{I64: int64(i), S: "pending"})
+	}
+	if _, err := db.InsertOrUpdateMany(objs...); err != nil {
+		e.failf("prefill: %v", err)
+	}
+	// from the after-th mutation on nothing can be written, created, renamed or removed
+	vshim.ArmFrom(e.root, after)
+	flags := map[string]int{}
+	run := func(name string, f func()) {
+		done := make(chan struct{})
+		go func() {
+			defer close(done)
+			defer func() { recover() }() // (a panic is C19's business)
+			f()
+		}()
+		select {
+		case <-done:
+		case <-time.After(10 * time.Second):
+			stuck, summary := stuckInLocks()
+			msg := fmt.Sprintf("the storage fails on every mutation (from the %d-th on) with %d async writes pending; %s did not return within 10 s (calls so far: %v; all goroutines in lock or channel waits: %v)\n%s", after, pending, name, calls, stuck, summary)
+			recordFailure(prog, msg)
+			t.Fatalf("%s\nprogram: %s", msg, prog.JSON())
+		}
+		flags["storage-gone-"+name] = 1
+	}
+	for _, c := range calls {
+		switch c {
+		case "flushAll":
+			run(c, func() { db.FlushAll(&Doc{}) })
+		case "flushAllCommit":
+			run(c, func() { db.FlushAllAndCommit(&Doc{}) })
+		case "commit":
+			run(c, func() { db.Commit(&Doc{}) })
+		case "insert":
+			run(c, func() { db.InsertOrUpdate(&Doc{I64: 7777, S: "late"}) })
+		case "many":
+			run(c, func() { db.InsertOrUpdateMany(&Doc{I64: 7778}, &Doc{I64: 7779}) })
+		case "delete":
+			run(c, func() { db.Delete(objs[0]) })
+		case "deleteAll":
+			run(c, func() { db.DeleteAll(&Doc{}) })
+		case "repair":
+			run(c, func() { db.Repair(&Doc{}) })
+		case "createAgain":
+			run(c, func() { db.Create(&Doc{}, e.cfg.Schema()) })
+		case "count":
+			run(c, func() { db.Count(&Doc{}) })
+		case "all":
+			run(c, func() { db.All(&Doc{}) })
+		case "control":
+			run(c, func() { db.Control() })
+		case "searchDelete":
+			run(c, func() { db.Search(&Doc{}, "I64", "<", int64(3)).Delete() })
+		}
+	}
+	run("Close", func() { db.Close() })
+	e.db = nil
+	if e.cfg.Async != nil && pending >= 17 {
+		flags["many-pending-writes-fail-in-one-flush"] = 1
+	}
+	st.Case(prog.Hash(), pending >= 5, flags, func() interface{} { return prog })
+}
+
+func init() {
+	replayAlts = append(replayAlts, replayAlt{prop: "C09", match: hasAux("storageGone"), run: func(t *testing.T, prog *Program) {
+		guardT(t, prog, func() { caseC09StorageGone(t, prog) })
+	}})
+}
